@@ -123,12 +123,18 @@ Definition set_tx_power_126 (g : cfg126) (p : Z) (freq : option N) (is_tx_prep :
 Definition code (l : list (option N)) (i : N) : option N := nth (N.to_nat i) l None.
 
 (* set_modulation_params(sf idx, bw idx, cr idx, ldro byte) *)
+(* the command bytes and the TxModulation erratum value, as pure functions *)
+Definition cmd_mod_126 (sf bw cr ldro : N) : option (list N) :=
+  match code s6_sf_codes sf, code s6_bw_codes bw, code s6_cr_codes cr with
+  | Some s, Some b, Some c => Some [s6_OpCode_SetModulationParams; s; b; c; ldro]
+  | _, _, _ => None end.
+Definition txmod_value (bw v : N) : N := if bw =? 9 then N.land v 0xFB else N.lor v 4.
 Definition set_mod_126 (sf bw cr ldro : N) : prog unit :=
   match code s6_sf_codes sf, code s6_bw_codes bw, code s6_cr_codes cr with
   | Some s, Some b, Some c =>
     spi_write [s6_OpCode_SetModulationParams; s; b; c; ldro] false ;;;
     v <- reg_r8 s6_Register_TxModulation ;;
-    if bw =? 9 then reg_w8 s6_Register_TxModulation (N.land v 0xFB) else reg_w8 s6_Register_TxModulation (N.lor v 4)
+    reg_w8 s6_Register_TxModulation (txmod_value bw v)
   | None, _, _ => Fail EUnavailableSF
   | _, None, _ => Fail EUnavailableBW
   | _, _, None => Fail EPanic
@@ -141,20 +147,24 @@ Definition create_mod_126 (sf bw cr freq : N) : option rerr :=
 Definition create_pkt_preamble_126 (sf preamble : N) : N := if ((sf =? 0) || (sf =? 1)) && (preamble <? 12) then 12 else preamble.
 
 Definition b2n (b : bool) : N := if b then 1 else 0.
+Definition cmd_pkt_126 (preamble : N) (implicit : bool) (len : N) (crc iq : bool) : list N :=
+  [s6_OpCode_SetPacketParams; hi8 preamble; lo8 preamble; b2n implicit; len; b2n crc; b2n iq].
+Definition iqpol_value (iq : bool) (v : N) : N := if iq then N.land v 0xFB else N.lor v 4.
 Definition set_pkt_126 (preamble : N) (implicit : bool) (len : N) (crc iq : bool) : prog unit :=
-  spi_write [s6_OpCode_SetPacketParams; hi8 preamble; lo8 preamble; b2n implicit; len; b2n crc; b2n iq] false ;;;
+  spi_write (cmd_pkt_126 preamble implicit len crc iq) false ;;;
   v <- reg_r8 s6_Register_IQPolarity ;;
-  if iq then reg_w8 s6_Register_IQPolarity (N.land v 0xFB) else reg_w8 s6_Register_IQPolarity (N.lor v 4).
+  reg_w8 s6_Register_IQPolarity (iqpol_value iq v).
 
 Definition calibrate_image_126 (f : N) : prog unit :=
   let '(a, b) := if 900000000 <? f then (0xE1, 0xE9) else if 850000000 <? f then (0xD7, 0xDB) else if 770000000 <? f then (0xC1, 0xC5)
                  else if 460000000 <? f then (0x75, 0x81) else if 425000000 <? f then (0x6B, 0x6F) else (0, 0) in
   spi_write [s6_OpCode_CalibrateImage; a; b] false.
 
+Definition cmd_rf_126 (s : N) : list N := [s6_OpCode_SetRFFrequency; (s / 16777216) mod 256; (s / 65536) mod 256; (s / 256) mod 256; s mod 256].
 Definition set_channel_126 (f : N) : prog unit :=
   match pll_step_126 f with
   | None => Fail EPanic
-  | Some s => spi_write [s6_OpCode_SetRFFrequency; (s / 16777216) mod 256; (s / 65536) mod 256; (s / 256) mod 256; s mod 256] false
+  | Some s => spi_write (cmd_rf_126 s) false
   end.
 
 Definition set_payload_126 (p : list N) : prog unit := spi_write_payload [s6_OpCode_WriteBuffer; 0] p false.
@@ -214,13 +224,14 @@ Definition do_cad_126 (g : cfg126) (sf : N) : prog unit :=
   end.
 
 Inductive irqmode := IqNone | IqStandby | IqTransmit | IqReceive | IqCad | IqOther.
-Definition set_irq_126 (m : irqmode) : prog unit :=
-  let mask := match m with
-              | IqStandby | IqReceive => s6_IrqMask_All
-              | IqTransmit => N.lor s6_IrqMask_TxDone s6_IrqMask_RxTxTimeout
-              | IqCad => N.lor s6_IrqMask_CADDone s6_IrqMask_CADActivityDetected
-              | _ => 0 end in
-  spi_write [s6_OpCode_CfgDIOIrq; hi8 mask; lo8 mask; hi8 mask; lo8 mask; 0; 0; 0; 0] false.
+Definition irq_mask_126 (m : irqmode) : N :=
+  match m with
+  | IqStandby | IqReceive => s6_IrqMask_All
+  | IqTransmit => N.lor s6_IrqMask_TxDone s6_IrqMask_RxTxTimeout
+  | IqCad => N.lor s6_IrqMask_CADDone s6_IrqMask_CADActivityDetected
+  | _ => 0 end.
+Definition cmd_irq_126 (mask : N) : list N := [s6_OpCode_CfgDIOIrq; hi8 mask; lo8 mask; hi8 mask; lo8 mask; 0; 0; 0; 0].
+Definition set_irq_126 (m : irqmode) : prog unit := spi_write (cmd_irq_126 (irq_mask_126 m)) false.
 Definition set_cw_126 : prog unit := iv IvSwTx ;;; spi_write [s6_OpCode_SetTxContinuousWave] false.
 Definition clear_irq_126 : prog unit := spi_write [s6_OpCode_ClrIrqStatus; 0xFF; 0xFF] false.
 
